@@ -17,6 +17,7 @@ VERIF = os.path.dirname(os.path.dirname(os.path.abspath(__file__)))
 REPO = os.environ.get("VERIF_REPO", "/repo")
 SPEC = os.path.join(VERIF, "spec")
 HARNESS = os.path.join(VERIF, "harness")
+OUT = os.environ.get("VERIF_OUT", VERIF)          # where evidence/ and replays/ are written (default: /verif)
 TLA_CP = "/opt/veriftools/tla/tla2tools.jar:/opt/veriftools/tla/CommunityModules-deps.jar"
 NCPU = os.cpu_count() or 4
 
@@ -77,14 +78,29 @@ def sync_gosum():
         raise Machinery("cannot copy go.sum: %s" % e)
 
 
+def harness_dir(ctx):
+    """the harness module; when VERIF_REPO points at another checkout (seeded-change trials) a scratch copy whose replace
+    directive names that checkout"""
+    if REPO == "/repo":
+        sync_gosum()
+        return HARNESS
+    d = os.path.join(ctx.scratch, "harness")
+    if not os.path.isdir(d):
+        shutil.copytree(HARNESS, d)
+        gm = open(os.path.join(d, "go.mod")).read().replace("=> /repo", "=> " + REPO)
+        open(os.path.join(d, "go.mod"), "w").write(gm)
+        shutil.copyfile(os.path.join(REPO, "go.sum"), os.path.join(d, "go.sum"))
+    return d
+
+
 def build_driver(ctx, race=False):
     key = "drive-race" if race else "drive"
     if key in ctx._bins:
         return ctx._bins[key]
-    sync_gosum()
+    hd = harness_dir(ctx)
     out = os.path.join(ctx.scratch, key)
     cmd = ["go", "build", "-tags", "verif"] + (["-race"] if race else []) + ["-o", out, "./cmd/drive"]
-    r = subprocess.run(cmd, cwd=HARNESS, env=goenv(), capture_output=True, text=True)
+    r = subprocess.run(cmd, cwd=hd, env=goenv(), capture_output=True, text=True)
     if r.returncode != 0:
         raise Machinery("driver build failed (does /repo still compile with -tags verif?):\n" + r.stderr[-4000:])
     ctx._bins[key] = out
@@ -246,7 +262,7 @@ def write_evidence(ctx, level, coverage, assumptions=(), extra=None):
         ev["notes"] = ctx.notes
     if ctx.known:
         ev["known_findings_reported"] = ctx.known
-    d = os.path.join(VERIF, "evidence")
+    d = os.path.join(OUT, "evidence")
     os.makedirs(d, exist_ok=True)
     tmp = os.path.join(d, ".%s.json.tmp" % ctx.pid)
     with open(tmp, "w") as f:
@@ -265,7 +281,7 @@ def report(ctx, sig, what, replay_obj):
                 print(line, flush=True)
                 ctx.known.append(line)
             return False
-    d = os.path.join(VERIF, "replays", ctx.pid)
+    d = os.path.join(OUT, "replays", ctx.pid)
     os.makedirs(d, exist_ok=True)
     body = json.dumps(replay_obj, sort_keys=True, indent=1, default=str)
     h = hashlib.sha256((sig + body).encode()).hexdigest()[:12]
